@@ -1,23 +1,35 @@
 #!/usr/bin/env python3
-"""mem_profile.py: rebuild lib/mem_profile.json (expected peak solver memory per (harness, enforced function, configuration))
-from the peaks recorded in evidence/*.json.  Only keys above 1.5 GB are stored (the default estimate is 2 GB)."""
+"""mem_profile.py: rebuild lib/mem_profile.json from the peak solver memory recorded in evidence/*.json:
+  "names": peak (GB) of every group seen that needed more than 0.7 GB (a group seen below that is listed in "small");
+  "keys":  maximum per (harness, enforced function, configuration) - the fallback for groups not seen before."""
 import glob
 import json
 import os
 V = os.path.dirname(os.path.dirname(os.path.abspath(__file__)))
-prof = {}
+path = os.path.join(V, "lib", "mem_profile.json")
 try:
-    prof = json.load(open(os.path.join(V, "lib", "mem_profile.json")))
+    prof = json.load(open(path))
+    prof.setdefault("names", {}); prof.setdefault("keys", {}); prof.setdefault("small", [])
 except Exception:
-    pass
+    prof = {"names": {}, "keys": {}, "small": []}
+small = set(prof["small"])
 for f in glob.glob(os.path.join(V, "evidence", "*.json")):
     try:
         d = json.load(open(f))
     except Exception:
         continue
     for g in d.get("coverage", {}).get("groups", []):
-        k, m = g.get("mem_key"), g.get("solver_peak_rss_gb", 0)
-        if k and m and m > 1.5:
-            prof[k] = max(prof.get(k, 0), round(m + 0.5, 1))
-json.dump(prof, open(os.path.join(V, "lib", "mem_profile.json"), "w"), indent=1, sort_keys=True)
-print("%d keys above 1.5 GB" % len(prof))
+        k, m, n = g.get("mem_key"), g.get("solver_peak_rss_gb", 0), g.get("name", "")
+        n = n.split(".", 1)[1] if "." in n else n          # drop the property prefix (c01. / c12. ...): groups are shared
+        if not k or not m:
+            continue
+        if m > 0.7:
+            prof["names"][n] = max(prof["names"].get(n, 0), round(m + 0.3, 1))
+            small.discard(n)
+        elif n not in prof["names"]:
+            small.add(n)
+        if m > 1.5:
+            prof["keys"][k] = max(prof["keys"].get(k, 0), round(m + 0.5, 1))
+prof["small"] = sorted(small)
+json.dump(prof, open(path, "w"), indent=0, sort_keys=True)
+print("%d named groups above 0.7 GB, %d small, %d keys" % (len(prof["names"]), len(prof["small"]), len(prof["keys"])))
